@@ -152,8 +152,11 @@ class SshSoftwareVersionParsedBase(SshSoftwareVersionBase):
 
         if parser.unparsed_length > 0 and version_separator is not None:
             parser.parse_separator(version_separator)
-            parser.parse_string_by_length('version')
-            version = parser['version']
+            if parser.unparsed_length > 0:
+                parser.parse_string_by_length('version')
+                version = parser['version']
+            else:
+                version = ''
         else:
             version = None
 
